@@ -1,5 +1,116 @@
 import WuffsVerif.Common.Line
-/-! Line driver for C05 — stub, not built yet. -/
-open WuffsVerif.Line
+import WuffsVerif.Model.Liveness
+/-! Line driver for C05.  Ops:
+  live <nvars> <abstract body tokens…>   -> r [i,j,…]   (sorted resumable variable indexes)
+The body grammar is the one written by /repo/internal/cgen/verif_export_c05.go.
+-/
+open WuffsVerif WuffsVerif.Line WuffsVerif.Liveness
 
-def main : IO Unit := runPure (fun _ => "bad-op")
+namespace C05Parse
+
+abbrev Toks := List String
+
+def parseNats : Toks → List Nat → Option (List Nat × Toks)
+  | ")" :: rest, acc => some (acc.reverse, rest)
+  | t :: rest, acc => match t.toNat? with
+    | some i => parseNats rest (i :: acc)
+    | none => none
+  | [], _ => none
+
+/-- `( E n|c|ci i* )` -/
+def parseEx : Toks → Option (Ex × Toks)
+  | "(" :: "E" :: fl :: rest =>
+    match parseNats rest [] with
+    | some (vs, rest) =>
+      match fl with
+      | "n" => some (⟨false, false, vs⟩, rest)
+      | "c" => some (⟨true, false, vs⟩, rest)
+      | "ci" => some (⟨true, true, vs⟩, rest)
+      | _ => none
+    | none => none
+  | _ => none
+
+def parseExOpt : Toks → Option (Option Ex × Toks)
+  | "-" :: rest => some (none, rest)
+  | ts => (parseEx ts).map (fun (e, r) => (some e, r))
+
+def parseLhs : Toks → Option (Lhs × Toks)
+  | "-" :: rest => some (Lhs.none, rest)
+  | "(" :: "V" :: i :: ")" :: rest => i.toNat?.map (fun i => (Lhs.var i, rest))
+  | ts => (parseEx ts).map (fun (e, r) => (Lhs.expr e, r))
+
+mutual
+partial def parseStmt : Toks → Option (Stmt × Toks)
+  | "(" :: "A" :: op :: rest => do
+    let op ← match op with
+      | "e" => some AOp.eq | "q" => some AOp.eqQuestion | "o" => some AOp.other | _ => none
+    let (lhs, rest) ← parseLhs rest
+    let (rhs, rest) ← parseEx rest
+    match rest with
+    | ")" :: rest => some (.assign op lhs rhs, rest)
+    | _ => none
+  | "(" :: "X" :: rest => do
+    let (e, rest) ← parseEx rest
+    match rest with
+    | ")" :: rest => some (.expr e, rest)
+    | _ => none
+  | "(" :: "M" :: rest => do
+    let (io, rest) ← parseEx rest
+    let (a1, rest) ← parseExOpt rest
+    let (hp, rest) ← parseExOpt rest
+    let (b, rest) ← parseBlock rest
+    match rest with
+    | ")" :: rest => some (.iomanip io a1 hp b, rest)
+    | _ => none
+  | "(" :: "I" :: rest => do
+    let (c, rest) ← parseEx rest
+    let (t, rest) ← parseBlock rest
+    let (e, rest) ← parseBlock rest
+    match rest with
+    | ")" :: rest => some (.ite c t e, rest)
+    | _ => none
+  | "(" :: "J" :: kw :: d :: ")" :: rest => do
+    let d ← d.toNat?
+    match kw with
+    | "b" => some (.jump true d, rest)
+    | "c" => some (.jump false d, rest)
+    | _ => none
+  | "(" :: "R" :: kw :: rest => do
+    let (e, rest) ← parseEx rest
+    let y ← match kw with | "r" => some false | "y" => some true | _ => none
+    match rest with
+    | ")" :: rest => some (.ret y e, rest)
+    | _ => none
+  | "(" :: "D" :: i :: ")" :: rest => i.toNat?.map (fun i => (.var i, rest))
+  | "(" :: "W" :: tf :: rest => do
+    let wt ← match tf with | "t" => some true | "f" => some false | _ => none
+    let (c, rest) ← parseEx rest
+    let (b, rest) ← parseBlock rest
+    match rest with
+    | ")" :: rest => some (.while wt c b, rest)
+    | _ => none
+  | _ => none
+
+partial def parseStmts (ts : Toks) (acc : List Stmt) : Option (List Stmt × Toks) :=
+  match ts with
+  | "]" :: rest => some (acc.reverse, rest)
+  | ts => do
+    let (s, rest) ← parseStmt ts
+    parseStmts rest (s :: acc)
+
+partial def parseBlock : Toks → Option (List Stmt × Toks)
+  | "[" :: rest => parseStmts rest []
+  | _ => none
+end
+
+end C05Parse
+
+def c05Step (l : List String) : String :=
+  match l with
+  | "live" :: n :: toks =>
+    match n.toNat?, C05Parse.parseBlock toks with
+    | some n, some (b, []) => "r " ++ showNatList (resumables n b)
+    | _, _ => "bad-op"
+  | _ => "bad-op"
+
+def main : IO Unit := runPure c05Step
